@@ -43,7 +43,53 @@ def run(facts, rep):
     d6_width(facts, rep)
     d7_fresh_poll(facts, rep)
     d8_cleanup_access(facts, rep)
+    d8_growth_access_checks_the_tag(facts, rep)
     d9_failure_visibility(facts, rep)
+
+
+def d8_growth_access_checks_the_tag(facts, rep):
+    """The growth path reaches an element through internal_subscript<true>: it loads the segment entry, enables the segment if it is
+    missing, and must then find out whether the entry is the allocation-failure tag BEFORE it indexes it - whichever way the
+    entry was obtained (loaded as already tagged by an earlier failure, or just returned by enable_segment).  Rule: every
+    `segment[index]` on a local segment pointer is dominated by an edge on which that same value of the pointer is known not to
+    be the failure tag (== tag false / != tag true / > tag true, with no redefinition of the pointer in between)."""
+    n = 0
+    for fn in facts.fns.values():
+        if not fn.p.endswith('segment_table::internal_subscript') or not calls_named(fn, ('throw_exception',)):
+            continue                  # the checked (growth) instantiation is the one that can throw
+        defs = Defs(fn)
+        uses = []
+        for b, i, e in fn.iter_elems():
+            if isinstance(e, int) and fn.nodes[e].get('k') == 'index':
+                bn = fn.n(fn.strip(fn.nodes[e]['base']))
+                if bn.get('k') == 'var' and bn.get('local') and '*' in (bn.get('ty') or '') and 'atomic' not in (bn.get('ty') or ''):
+                    uses.append(((b, i), e, bn['v']))
+        for pos, e, vid in uses:
+            def not_tag(a, truth, vid=vid):
+                nd = fn.n(fn.strip(a))
+                if nd.get('k') != 'binop' or nd['op'] not in ('==', '!=', '>', '<='):
+                    return False
+                sides = [fn.n(fn.strip(nd['l'])), fn.n(fn.strip(nd['r']))]
+                if not any(x.get('k') == 'var' and x.get('v') == vid for x in sides):
+                    return False
+                if not any(fn.nodes[x].get('n') == 'segment_allocation_failure_tag' for x in fn.subtree(fn.strip(a))):
+                    return False
+                return truth == (nd['op'] in ('!=', '>'))
+            good = set()
+            use_defs = set(defs.reaching(pos, vid) or [])
+            for (b, si) in edges_where(fn, not_tag):
+                cpos = fn.pos_of(fn.blocks[b]['term']['c'])
+                if cpos is not None and set(defs.reaching(cpos, vid) or []) == use_defs:
+                    good.add((b, si))
+            # r1::throw_exception(id) is not declared noreturn but throws for every known id: a path terminator (DESIGN 3.6)
+            ok, wit = dominated_by_edges(fn, pos, good, extra_elem=lambda p_, e_: is_call_to(fn, e_, shortnames=('throw_exception',)))
+            n += 1
+            rep.ob('D8', 'K13', fn, 'the growth path indexes a segment only after excluding the allocation-failure tag for that value (line %s)'
+                   % fn.nodes[e].get('ln'), ok, 'an entry that was loaded already tagged (an earlier allocation of this segment failed) is used as an '
+                   'array: the element is constructed at tag + index*sizeof(T), unallocated memory, instead of bad_alloc being thrown (' + wit + ')',
+                   ln=fn.nodes[e].get('ln'), key_extra='growth-tag|%s' % fn.nodes[e].get('ln'))
+    if n < 1:
+        raise AnalysisBroken('internal_subscript<true>: indexing of the local segment pointer not found')
 
 
 def d9_failure_visibility(facts, rep):
